@@ -661,8 +661,7 @@ class Dispatch:
         ck_ = self._class_key(key)
         if ck_ is not None:
             keys = [self._class_key(k) for (k, _v) in ent]
-            if ck_ != _UNKNOWN_CLASS:
-                self.exact_keys.add(ck_)
+            self.exact_keys |= {kk for kk in keys if kk}
             hit = None
             for kk, (_k, v) in zip(keys, ent):
                 if kk is not None and kk == ck_:
@@ -1237,6 +1236,17 @@ def _check_dispatch_order(ck, rule, fa, D, pairs, label):
         only_sup = own_sup - own_sub
         ok = all(not (D.outcome((sub, kind, "actual")) & only_sup) for kind in ("exact", "sub"))
         verdicts.append((sub, sup, ok))
+    # an exact-class look-up in front of the dispatch answers for a direct instance what the dispatch itself answers for
+    # the class (i.e. for an instance of an unnamed subclass, which the look-up does not know)
+    for k in sorted(D.exact_keys):
+        direct, through = D.outcome((k, "exact", "actual")), D.outcome((k, "sub", "actual"))
+        if k in ("bool", "None", "NoneType"):
+            continue  # cannot be subclassed
+        okx = direct == through
+        ck.ob(rule, fa.key(None, "%s:exact-class-table-agrees:%s" % (label, k)), okx,
+              "the exact-class look-up answers for %s what the dispatch answers" % k if okx else
+              "a direct instance of %s is answered %s by the exact-class look-up, an instance of a subclass of it %s by the dispatch behind it: "
+              "the two disagree" % (k, sorted(v for (_k, v) in direct), sorted(v for (_k, v) in through)), fa.where(D.where_of(k)))
     for (sub, sup, ok) in verdicts:
         ck.ob(rule, fa.key(None, "%s:%s-before-%s" % (label, sub, sup)), ok,
               "%s is tested before its superclass %s" % (sub, sup) if ok else
